@@ -432,6 +432,9 @@ impl LogReader {
 
         // A buffer consolidating all of the fragments retrieved from the log file.
         let mut data_buffer: Vec<u8> = vec![];
+        // True while `data_buffer` holds the leading fragments of a record that is still missing
+        // its last fragment.
+        let mut in_fragmented_record = false;
 
         loop {
             let maybe_record = self.read_physical_record();
@@ -444,16 +447,30 @@ impl LogReader {
                 }
             } else {
                 let record = maybe_record.unwrap();
-                data_buffer.extend(record.data);
 
                 match record.block_type {
                     BlockType::Full => {
-                        return Ok((data_buffer, false));
+                        // Any pending fragments belong to a record whose writer died before
+                        // finishing it. They are dropped.
+                        return Ok((record.data, false));
                     }
-                    BlockType::First => {}
-                    BlockType::Middle => {}
+                    BlockType::First => {
+                        // Same as above: a new record starts, so pending fragments are orphans
+                        data_buffer.clear();
+                        data_buffer.extend(record.data);
+                        in_fragmented_record = true;
+                    }
+                    BlockType::Middle => {
+                        // A middle or last fragment without a first fragment is an orphan
+                        if in_fragmented_record {
+                            data_buffer.extend(record.data);
+                        }
+                    }
                     BlockType::Last => {
-                        return Ok((data_buffer, false));
+                        if in_fragmented_record {
+                            data_buffer.extend(record.data);
+                            return Ok((data_buffer, false));
+                        }
                     }
                 }
             }
